@@ -12,28 +12,28 @@ PROPS = {
         "engine": "sweep",
         "level": "exploration",
         "technique": "ThreadSanitizer (happens-before race detection on declared memory orders) over every engine's generated, perturbed in-contract workloads",
-        "level_text": "Every claimed property's quick case set is re-run in a gcc -fsanitize=thread build with hook perturbation on and monitors in lite mode (relaxed atomics / thread-local logs only, so the monitors add no happens-before edges). Any data-race report not listed in known_findings.json is a violation. TSan judges the declared memory orders, which is what decides races under the weak C++ memory model on x86 hardware.",
+        "level_text": "Every claimed property's TSan-sized quick case set (quick: a 3/8 shard sample of each; thorough: all of it, 3 seeds) is re-run in a gcc -fsanitize=thread build with hook perturbation on and monitors in lite mode (relaxed atomics / thread-local logs only, so the monitors add no happens-before edges). Any data-race report not listed in known_findings.json is a violation. TSan judges the declared memory orders, which is what decides races under the weak C++ memory model on x86 hardware.",
         "level_note": "Only races on paths the workloads reach, in interleavings that occurred; TSan does not model stand-alone fences (dispenso annotates those regions itself). Reports are keyed by '<property whose cases ran>:<case key>#tsan:<kind>:<top dispenso functions>'.",
         "design_ref": "DESIGN.md §4 C10",
         "rule": "cases are the other engines' quick cases; non-trivial per the owning engine's rule; distinct by that engine's signature",
         "required_classes": [],
         "assumptions": ["harness workloads stay inside dispenso's documented thread-safety contract (DESIGN §3.5)"],
         "sweep": {"configs": {"quick": ["tsan"], "thorough": ["tsan"]}, "tools": ["tsan"], "kinds": ["data race", "use-after-free", "heap-use-after-free"],
-                  "shards": 4, "seeds": {"quick": 1, "thorough": 3}, "exclude": ["C17", "C43", "C44"]},
+                  "shards": 8, "run_shards": {"quick": 3, "thorough": 8}, "seeds": {"quick": 1, "thorough": 3}, "exclude": ["C17", "C43", "C44"]},
         "runs": {"quick": [], "thorough": []},
     },
     "C11": {
         "engine": "sweep",
         "level": "exploration",
         "technique": "AddressSanitizer + UndefinedBehaviorSanitizer + LeakSanitizer (also with DISPENSO_NO_SMALL_BUFFER_ALLOCATOR) over every engine's generated workloads including throw/cancel/shutdown paths",
-        "level_text": "Every claimed property's quick case set is re-run in -fsanitize=address,undefined builds (asan, and asan-nosba where dispenso's small-buffer allocator is compiled out so its blocks are visible to ASan/LSan); per-case recoverable leak checks attribute leaks to cases. Any ASan/UBSan/LSan report not listed in known_findings.json is a violation.",
+        "level_text": "Every claimed property's ASan-sized quick case set (quick: a 3/8 shard sample of each; thorough: all of it, 2 seeds, both builds) is re-run in -fsanitize=address,undefined builds (asan, and asan-nosba where dispenso's small-buffer allocator is compiled out so its blocks are visible to ASan/LSan); per-case recoverable leak checks attribute leaks to cases. Any ASan/UBSan/LSan report not listed in known_findings.json is a violation.",
         "level_note": "Red-zone tools miss intra-object overflows and reuse inside dispenso's own pooled allocators (hence the asan-nosba build and Tracked payloads in the engines). Only reached paths are judged.",
         "design_ref": "DESIGN.md §4 C11",
         "rule": "cases are the other engines' quick cases; non-trivial per the owning engine's rule; distinct by that engine's signature",
         "required_classes": [],
         "assumptions": ["harness workloads stay inside dispenso's documented contract (DESIGN §3.5)"],
         "sweep": {"configs": {"quick": ["asan"], "thorough": ["asan", "asan-nosba"]}, "tools": ["asan", "lsan", "ubsan"],
-                  "shards": 4, "seeds": {"quick": 1, "thorough": 2}, "exclude": []},
+                  "shards": 8, "run_shards": {"quick": 3, "thorough": 8}, "seeds": {"quick": 1, "thorough": 2}, "exclude": ["C17", "C44"]},
         "runs": {"quick": [], "thorough": []},
     },
 }
